@@ -30,6 +30,20 @@ CHECKS = {
         text='Same exploration as C02; in every reached state alive flags of all incarnations, at-most-one-alive per '
              'id, monotone death, and on every line presence/absence, subject and lifespan of the destruction annotation.',
         ref='3/C03', engine='BFS'),
+    'C04': dict(
+        technique='exhaustive enumeration of all order-preserving interleavings of per-connection scripts + '
+                  'explicit-state BFS over open/message/close on the connection-id interface, run on the real pipeline',
+        text='Every interleaving of 2-4 per-connection scripts that use the same object ids is executed; each '
+             'connection\'s projection must equal its solo run and its reference object table; names/roles/notices/listing '
+             'are checked absolutely. BFS over sink events covers re-opened, unknown and twice-closed ids.',
+        ref='3/C04', engine='ILV+BFS'),
+    'C14': dict(
+        technique='exhaustive enumeration of all letter indexes below 475254 (+ lattice to 26^8) and of every label '
+                  'of every object in all bounded histories, each fed back as a matcher to the real controller',
+        text='number<->letters conversion is compared with the by-construction sequence for every index through four '
+             'letters; every displayed label in every explored history/interleaving is used as `X: label` matcher and must '
+             'select exactly the reference set of lines.',
+        ref='3/C14', engine='PROD'),
 }
 
 NOT_YET = 'check under construction in this round; will be claimed when mc/props/%s.py lands'
